@@ -77,6 +77,8 @@ RenderAttrs(attrs, q) ==
 
 RowSep(style, i) == IF style.sep = "mixed" THEN (IF i % 2 = 1 THEN "inline" ELSE "line") ELSE style.sep
 UniformRow(cells) == \A i \in 1..Len(cells) : cells[i].kind = cells[1].kind
+\* a cell holding a nested table spans lines: its row is written one cell per line
+HasTable(cells) == \E i \in 1..Len(cells) : \E j \in 1..Len(cells[i].content) : cells[i].content[j].k = "TB"
 
 RECURSIVE Render(_), RenderItem(_), RenderArgs(_), RenderTable(_)
 Render(c) == IF c = <<>> THEN <<>> ELSE RenderItem(Head(c)) \o Render(Tail(c))
@@ -123,7 +125,7 @@ RenderTable(g) ==
           \o <<"NL">>
       Row(i) ==
         LET cells == g.rows[i].cells IN
-        RowMarker(i) \o (IF RowSep(st, i) = "inline" /\ UniformRow(cells) /\ cells # <<>>
+        RowMarker(i) \o (IF RowSep(st, i) = "inline" /\ UniformRow(cells) /\ cells # <<>> /\ ~HasTable(cells)
                          THEN InlineCells(cells) ELSE LineCells(cells))
   IN open \o cap \o Concat([i \in 1..Len(g.rows) |-> Row(i)]) \o <<"|", "}">>
 
@@ -165,6 +167,7 @@ TreeOf(page) == RootNode(CT(page))
 (* which written structures the statement is about (preconditions)           *)
 (* ------------------------------------------------------------------------ *)
 UniqueNames(attrs) == \A i, j \in 1..Len(attrs) : i # j => attrs[i].n # attrs[j].n
+NoFormatEdge(c) == c # <<>> /\ c[1].k \notin {"I", "B"} /\ c[Len(c)].k \notin {"I", "B"}
 RECURSIVE OKContent(_, _), OKItem(_, _)
 \* cx: set of enclosing construct kinds
 OKContent(c, cx) == \A i \in 1..Len(c) : OKItem(c[i], cx)
@@ -174,9 +177,12 @@ OKItem(it, cx) ==
     [] it.k \in {"T", "A", "P"} -> \A i \in 1..Len(it.args) : OKContent(it.args[i], cx \cup {it.k})
     [] it.k = "L" -> cx \cap {"L", "E"} = {} /\ \A i \in 1..Len(it.args) : OKContent(it.args[i], cx \cup {"L"})
     [] it.k = "E" -> cx \cap {"L", "E"} = {} /\ OKContent(it.text, cx \cup {"E"})
-    [] it.k = "I" -> ~inCall /\ "I" \notin cx /\ OKContent(it.c, cx \cup {"I"})
-    [] it.k = "B" -> ~inCall /\ "B" \notin cx /\ OKContent(it.c, cx \cup {"B"})
-    [] it.k = "H" -> ~inCall /\ UniqueNames(it.attrs) /\ OKContent(it.c, cx \cup {"H"})
+    \* bold directly at the edge of italic (or vice versa) is written with five quotes,
+    \* which wikitext itself reads ambiguously: not part of the written structures
+    [] it.k = "I" -> ~inCall /\ "I" \notin cx /\ NoFormatEdge(it.c) /\ OKContent(it.c, cx \cup {"I"})
+    [] it.k = "B" -> ~inCall /\ "B" \notin cx /\ NoFormatEdge(it.c) /\ OKContent(it.c, cx \cup {"B"})
+    \* [url <b>text</b>]: the bracket syntax of this parser ends at the first < or >
+    [] it.k = "H" -> ~inCall /\ "E" \notin cx /\ UniqueNames(it.attrs) /\ OKContent(it.c, cx \cup {"H"})
     [] it.k = "TB" ->
          /\ cx \subseteq {"TB"}
          /\ UniqueNames(it.tattrs) /\ UniqueNames(it.cattrs)
@@ -199,13 +205,13 @@ Admissible(page) == OKContent(page, {})
 \* order links > external links > arguments > templates reaches the same final
 \* text as the nested sub() loops; nowiki flags, the empty-link/empty-template
 \* escapes and the HTML-element exception of vbar_split are not modelled.
-IndexOf(s, from, P(_)) ==   \* least i >= from with P(s[i]), or 0
-  IF \E i \in from..Len(s) : P(s[i]) THEN CHOOSE i \in from..Len(s) : P(s[i]) /\ \A j \in from..(i - 1) : ~P(s[j]) ELSE 0
+RECURSIVE IndexIn(_, _, _)
+IndexIn(s, from, S) ==   \* least i >= from with s[i] \in S, or 0
+  IF from > Len(s) THEN 0 ELSE IF s[from] \in S THEN from ELSE IndexIn(s, from + 1, S)
 
 RECURSIVE SplitBar(_)
 SplitBar(s) ==   \* vbar_split
-  LET IsBar(a) == a = "|"
-      i == IndexOf(s, 1, IsBar)
+  LET i == IndexIn(s, 1, {"|"})
   IN IF i = 0 THEN <<s>> ELSE <<SubSeq(s, 1, i - 1)>> \o SplitBar(SubSeq(s, i + 1, Len(s)))
 
 NoBr(s, from, to, bad) == \A k \in from..to : s[k] \notin bad
@@ -213,19 +219,16 @@ NoBr(s, from, to, bad) == \A k \in from..to : s[k] \notin bad
 \* [[ ... ]] : (?<!\[)\[\[ inner \]\], inner without [ ] { }, no newline before the first |
 LinkAt(s, i) ==
   IF i + 1 <= Len(s) /\ s[i] = "[" /\ s[i + 1] = "[" /\ (i = 1 \/ s[i - 1] # "[")
-  THEN LET IsClose(a) == a \in {"[", "]", "{", "}"}
-           j == IndexOf(s, i + 2, IsClose)
+  THEN LET j == IndexIn(s, i + 2, {"[", "]", "{", "}"})
        IN IF j > i + 2 /\ j + 1 <= Len(s) /\ s[j] = "]" /\ s[j + 1] = "]"
-             /\ LET IsBarOrNl(a) == a \in {"|", "NL"}
-                    b == IndexOf(SubSeq(s, i + 2, j - 1), 1, IsBarOrNl)
+             /\ LET b == IndexIn(SubSeq(s, i + 2, j - 1), 1, {"|", "NL"})
                 IN b = 0 \/ s[i + 1 + b] = "|"
           THEN j + 1 ELSE 0
   ELSE 0
 \* [ ... ](?!]) : inner without [ ] { } < > newline
 ExtAt(s, i) ==
   IF s[i] = "["
-  THEN LET IsStop(a) == a \in {"[", "]", "{", "}", "<", ">", "NL"}
-           j == IndexOf(s, i + 1, IsStop)
+  THEN LET j == IndexIn(s, i + 1, {"[", "]", "{", "}", "<", ">", "NL"})
        IN IF j > i + 1 /\ s[j] = "]" /\ (j = Len(s) \/ s[j + 1] # "]") THEN j ELSE 0
   ELSE 0
 StartsUrl(inner) ==
@@ -235,14 +238,18 @@ StartsUrl(inner) ==
 \* {{{ ... }}} / {{ ... }} : inner without braces
 BraceAt(s, i, n) ==
   IF i + n - 1 <= Len(s) /\ \A k \in 0..(n - 1) : s[i + k] = "{"
-  THEN LET IsBrace(a) == a \in {"{", "}"}
-           j == IndexOf(s, i + n, IsBrace)
+  THEN LET j == IndexIn(s, i + n, {"{", "}"})
        IN IF j > 0 /\ j + n - 1 <= Len(s) /\ (\A k \in 0..(n - 1) : s[j + k] = "}") /\ (n = 3 \/ j > i + n)
           THEN j + n - 1 ELSE 0
   ELSE 0
 
-FirstMatch(s, M(_, _)) ==   \* leftmost i with M(s, i) > 0
-  IF \E i \in 1..Len(s) : M(s, i) > 0 THEN CHOOSE i \in 1..Len(s) : M(s, i) > 0 /\ \A k \in 1..(i - 1) : M(s, k) = 0 ELSE 0
+MatchK(s, i, kind) ==
+  CASE kind = "L" -> LinkAt(s, i) [] kind = "E" -> ExtAt(s, i) [] kind = "A" -> BraceAt(s, i, 3) [] kind = "T" -> BraceAt(s, i, 2)
+RECURSIVE FirstMatch(_, _, _)
+FirstMatch(s, i, kind) ==   \* leftmost position >= i where a bracket group of this kind starts, or 0
+  IF i > Len(s) THEN 0
+  ELSE IF s[i] \in {"[", "{"} /\ MatchK(s, i, kind) > 0 THEN i
+  ELSE FirstMatch(s, i + 1, kind)
 
 RECURSIVE EncodeLoop(_)
 EncodeLoop(e) ==
@@ -253,10 +260,10 @@ EncodeLoop(e) ==
                     cookies |-> Append(e.cookies, [kind |-> kind, args |-> args])])
       Arg3(t, i) == BraceAt(t, i, 3)
       Tpl2(t, i) == BraceAt(t, i, 2)
-      l == FirstMatch(s, LinkAt)
-      x == FirstMatch(s, ExtAt)
-      a == FirstMatch(s, Arg3)
-      t == FirstMatch(s, Tpl2)
+      l == FirstMatch(s, 1, "L")
+      x == FirstMatch(s, 1, "E")
+      a == FirstMatch(s, 1, "A")
+      t == FirstMatch(s, 1, "T")
   IN IF l > 0 THEN Put(l, LinkAt(s, l), "L", SplitBar(SubSeq(s, l + 2, LinkAt(s, l) - 2)))
      ELSE IF x > 0
      THEN LET j == ExtAt(s, x)
@@ -284,24 +291,30 @@ NoMatch == [n |-> 0, toks |-> <<>>]
 M1(n, k, s) == [n |-> n, toks |-> <<Tok(k, s)>>]
 Has(seg, q, lit) == q + Len(lit) - 1 <= Len(seg) /\ \A k \in 1..Len(lit) : seg[q + k - 1] = lit[k]
 
-\* length of the maximal run of atoms satisfying P that starts at q
-RunLen(seg, q, P(_)) ==
-  IF q > Len(seg) THEN 0
-  ELSE IF \E i \in q..Len(seg) : ~P(seg[i])
-       THEN (CHOOSE i \in q..Len(seg) : ~P(seg[i]) /\ \A j \in q..(i - 1) : P(seg[j])) - q
-       ELSE Len(seg) - q + 1
+\* character classes used by the token regexps
+InClass(a, cls, dev) ==
+  CASE cls = "sp" -> a = "SP"
+    [] cls = "ws" -> a \in WS
+    [] cls = "q" -> a = "'"
+    [] cls = "dash" -> a = "-"
+    [] cls = "lm" -> a \in {"*", ":", ";", "#"}
+    [] cls = "host" -> IsWord(a) \/ a \in {".", "-", "_"}
+    [] cls = "path" -> a \notin {"[", "]", "{", "}", "<", ">", "|", "SP", "NL"}
+    [] cls = "tagattr" -> IsTagAttrName(a, dev)
+    [] cls = "unq" -> a \notin {"SP", "NL", "\"", "'", "`", "=", "<", ">"}
+\* length of the maximal run of atoms of a class that starts at q
+RECURSIVE RunLenC(_, _, _, _)
+RunLenC(seg, q, cls, dev) == IF q <= Len(seg) /\ InClass(seg[q], cls, dev) THEN 1 + RunLenC(seg, q + 1, cls, dev) ELSE 0
+RunLen(seg, q, cls) == RunLenC(seg, q, cls, {})
 
-IsSp(a) == a = "SP"
 \* \s*https?://[\w.-]+(/[^][{}<>|\s]*)?
 UrlAt(seg, q) ==
-  LET sp == RunLen(seg, q, IsSp)
+  LET sp == RunLen(seg, q, "sp")
       p == q + sp
-      IsHost(a) == IsWord(a) \/ a \in {".", "-", "_"}
-      IsPath(a) == a \notin {"[", "]", "{", "}", "<", ">", "|", "SP", "NL"}
   IN IF Has(seg, p, <<"http", ":", "/", "/">>) \/ Has(seg, p, <<"https", ":", "/", "/">>)
-     THEN LET h == RunLen(seg, p + 4, IsHost)
+     THEN LET h == RunLen(seg, p + 4, "host")
               e1 == p + 4 + h
-              pl == IF h > 0 /\ e1 <= Len(seg) /\ seg[e1] = "/" THEN 1 + RunLen(seg, e1 + 1, IsPath) ELSE 0
+              pl == IF h > 0 /\ e1 <= Len(seg) /\ seg[e1] = "/" THEN 1 + RunLen(seg, e1 + 1, "path") ELSE 0
           IN IF h = 0 THEN NoMatch
              ELSE LET url == SubSeq(seg, p, e1 + pl - 1) IN
                   IF q > 1 /\ seg[q - 1] = "=" THEN [n |-> sp + Len(url), toks |-> <<Tok("TXT", url)>>]
@@ -311,29 +324,25 @@ UrlAt(seg, q) ==
 
 \* one attribute group of the start-tag regexp: \b[-a-zA-Z0-9:]+(\s*=\s*("[^<>"]*"|'[^<>']*'|[^ \t\n"'`=<>]*))?\s*
 \* returns the number of atoms consumed (0 = no group here)
-IsWsAtom(a) == a \in WS
 QuotedLen(seg, q, qc) ==   \* length of "...": 0 if not a quoted string
   IF q <= Len(seg) /\ seg[q] = qc
-  THEN LET IsEnd(a) == a \in {qc, "<", ">"}
-           j == IndexOf(seg, q + 1, IsEnd)
+  THEN LET j == IndexIn(seg, q + 1, {qc, "<", ">"})
        IN IF j > 0 /\ seg[j] = qc THEN j - q + 1 ELSE 0
   ELSE 0
 AttrGroupLen(seg, q, dev) ==
-  LET IsAN(a) == IsTagAttrName(a, dev)
-      nl == RunLen(seg, q, IsAN)
+  LET nl == RunLenC(seg, q, "tagattr", dev)
       p1 == q + nl
-      w1 == RunLen(seg, p1, IsWsAtom)
-      IsUnq(a) == a \notin {"SP", "NL", "\"", "'", "`", "=", "<", ">"}
+      w1 == RunLen(seg, p1, "ws")
   IN IF nl = 0 THEN 0
      ELSE IF p1 + w1 <= Len(seg) /\ seg[p1 + w1] = "="
           THEN LET p2 == p1 + w1 + 1
-                   w2 == RunLen(seg, p2, IsWsAtom)
+                   w2 == RunLen(seg, p2, "ws")
                    p3 == p2 + w2
                    dq == QuotedLen(seg, p3, "\"")
                    sq == QuotedLen(seg, p3, "'")
-                   vl == IF dq > 0 THEN dq ELSE IF sq > 0 THEN sq ELSE RunLen(seg, p3, IsUnq)
+                   vl == IF dq > 0 THEN dq ELSE IF sq > 0 THEN sq ELSE RunLen(seg, p3, "unq")
                    p4 == p3 + vl
-               IN (p4 - q) + RunLen(seg, p4, IsWsAtom)
+               IN (p4 - q) + RunLen(seg, p4, "ws")
           ELSE nl + w1
 RECURSIVE AttrGroupsLen(_, _, _)
 AttrGroupsLen(seg, q, dev) == LET g == AttrGroupLen(seg, q, dev) IN IF g = 0 THEN 0 ELSE g + AttrGroupsLen(seg, q + g, dev)
@@ -341,7 +350,7 @@ AttrGroupsLen(seg, q, dev) == LET g == AttrGroupLen(seg, q, dev) IN IF g = 0 THE
 \* <name\s*(groups)*/?>  -> [n, name, attrs (text of the groups), selfclose]
 StartTagAt(seg, q, dev) ==
   IF q + 1 <= Len(seg) /\ seg[q] = "<" /\ IsHtmlName(seg[q + 1])
-  THEN LET w == RunLen(seg, q + 2, IsWsAtom)
+  THEN LET w == RunLen(seg, q + 2, "ws")
            g0 == q + 2 + w
            gl == AttrGroupsLen(seg, g0, dev)
            e == g0 + gl
@@ -354,16 +363,14 @@ StartTagAt(seg, q, dev) ==
 \* </name\s*>
 EndTagAt(seg, q) ==
   IF q + 2 <= Len(seg) /\ seg[q] = "<" /\ seg[q + 1] = "/" /\ IsHtmlName(seg[q + 2])
-  THEN LET w == RunLen(seg, q + 3, IsWsAtom) IN
+  THEN LET w == RunLen(seg, q + 3, "ws") IN
        IF q + 3 + w <= Len(seg) /\ seg[q + 3 + w] = ">" THEN [n |-> 4 + w, name |-> seg[q + 2]] ELSE [n |-> 0, name |-> ""]
   ELSE [n |-> 0, name |-> ""]
 
 \* the alternatives of token_list in order; caret = "^" can match here
 MatchAt(seg, q, caret, dev) ==
   LET a == seg[q]
-      IsDash(x) == x = "-"
-      IsLm(x) == x \in {"*", ":", ";", "#"}
-      spb == RunLen(seg, q, IsSp)
+      spb == RunLen(seg, q, "sp")
       url == UrlAt(seg, q)
       stg == StartTagAt(seg, q, dev)
       etg == EndTagAt(seg, q)
@@ -378,8 +385,8 @@ MatchAt(seg, q, caret, dev) ==
      ELSE IF caret /\ a = "|" THEN M1(1, "VBAR", <<"|">>)
      ELSE IF Has(seg, q, <<"|", "|">>) THEN M1(2, "DVBAR", <<"|", "|">>)
      ELSE IF a = "|" THEN M1(1, "VBAR", <<"|">>)
-     ELSE IF caret /\ RunLen(seg, q, IsDash) >= 4 THEN M1(RunLen(seg, q, IsDash), "HLINE", SubSeq(seg, q, q + RunLen(seg, q, IsDash) - 1))
-     ELSE IF caret /\ IsLm(a) THEN M1(RunLen(seg, q, IsLm), "LISTPFX", SubSeq(seg, q, q + RunLen(seg, q, IsLm) - 1))
+     ELSE IF caret /\ RunLen(seg, q, "dash") >= 4 THEN M1(RunLen(seg, q, "dash"), "HLINE", SubSeq(seg, q, q + RunLen(seg, q, "dash") - 1))
+     ELSE IF caret /\ InClass(a, "lm", {}) THEN M1(RunLen(seg, q, "lm"), "LISTPFX", SubSeq(seg, q, q + RunLen(seg, q, "lm") - 1))
      ELSE IF spb > 0 THEN M1(spb, "WS", SubSeq(seg, q, q + spb - 1))
      ELSE IF a = ":" THEN M1(1, "COLON", <<":">>)
      ELSE IF stg.n > 0 THEN [n |-> stg.n, toks |-> <<[k |-> "STAG", s |-> SubSeq(seg, q, q + stg.n - 1), name |-> stg.name,
@@ -397,12 +404,11 @@ ScanSeg(seg, q, from, caret, dev) ==
        ELSE (IF from < q THEN <<Tok("TXT", SubSeq(seg, from, q - 1))>> ELSE <<>>) \o m.toks
             \o ScanSeg(seg, q + m.n, q + m.n, caret, dev)
 
-IsQ(a) == a = "'"
 \* is there a ''' (or longer) run after position p
 RECURSIVE BoldFollows(_, _)
 BoldFollows(line, p) ==
   IF p > Len(line) THEN FALSE
-  ELSE IF line[p] = "'" THEN (LET r == RunLen(line, p, IsQ) IN r >= 3 \/ BoldFollows(line, p + r))
+  ELSE IF line[p] = "'" THEN (LET r == RunLen(line, p, "q") IN r >= 3 \/ BoldFollows(line, p + r))
   ELSE BoldFollows(line, p + 1)
 Quotes(n) == [i \in 1..n |-> "'"]
 IT == Tok("ITALIC", <<"'", "'">>)
@@ -429,13 +435,13 @@ QuoteRun(line, p, r, state) ==
 RECURSIVE NextQuoteRun(_, _)
 NextQuoteRun(line, p) ==
   IF p > Len(line) THEN p
-  ELSE IF line[p] = "'" THEN (LET r == RunLen(line, p, IsQ) IN IF r >= 2 THEN p ELSE NextQuoteRun(line, p + r))
+  ELSE IF line[p] = "'" THEN (LET r == RunLen(line, p, "q") IN IF r >= 2 THEN p ELSE NextQuoteRun(line, p + r))
   ELSE NextQuoteRun(line, p + 1)
 
 RECURSIVE LexLine(_, _, _, _, _)
 LexLine(line, p, state, first, dev) ==
   IF p > Len(line) THEN <<>>
-  ELSE LET r == IF line[p] = "'" THEN RunLen(line, p, IsQ) ELSE 0 IN
+  ELSE LET r == IF line[p] = "'" THEN RunLen(line, p, "q") ELSE 0 IN
        IF r >= 2
        THEN LET qr == QuoteRun(line, p, r, state) IN
             qr.toks \o (IF r > qr.used THEN <<Tok("TXT", Quotes(r - qr.used))>> ELSE <<>>)
@@ -448,8 +454,7 @@ RECURSIVE Lex(_, _)
 Lex(s, dev) ==
   IF s = <<>> THEN <<>>
   ELSE IF s[1] = "NL" THEN <<Tok("NL", <<"NL">>)>> \o Lex(Tail(s), dev)
-  ELSE LET IsNl(a) == a = "NL"
-           j == IndexOf(s, 1, IsNl)
+  ELSE LET j == IndexIn(s, 1, {"NL"})
            e == IF j = 0 THEN Len(s) ELSE j - 1
            line == SubSeq(s, 1, e)
        IN (IF \A k \in 1..e : line[k] = "SP" THEN <<>> ELSE LexLine(line, 1, 0, TRUE, dev)) \o Lex(SubSeq(s, e + 1, Len(s)), dev)
@@ -544,7 +549,7 @@ TextFn(st, a) ==
 \* value is the single atom between the quotes or empty.
 IsNameAtom(a) == a \notin {"\"", "'", ">", "/", "=", "SP", "NL"} /\ (IsWord(a))
 IsUnqValueAtom(a) == a \notin {"\"", "'", "<", ">", "`", "SP", "NL"}
-SkipWs(s, p) == p + RunLen(s, p, IsWsAtom)
+SkipWs(s, p) == p + RunLen(s, p, "ws")
 RECURSIVE ParseAttrsFrom(_, _)
 ParseAttrsFrom(s, p) ==
   IF p > Len(s) THEN <<>>
